@@ -7,6 +7,9 @@ import sys
 
 REPO = os.environ.get("VERIF_REPO", "/repo")
 _loaded = False
+# the working tree under test must win over the editable install, whoever imports factorysimpy first
+if os.path.join(REPO, "src") not in sys.path:
+    sys.path.insert(0, os.path.join(REPO, "src"))
 
 
 class _NpShim:
